@@ -43,7 +43,7 @@ def main(tier, seed):
                         "when several arguments are rejected the error may name any of them"]
     # instruction-level conformance: after a host call (and after a re-entry into the interpreter) the value stack holds what it
     # held before, minus the host function's parameters, plus one result, and the call frames are those of the caller
-    instr_conformance(run, ["host", "std"], 40 if tier != "thorough" else 300, seed, "C18-instr",
+    instr_conformance(run, ["host", "std", "hosttry"], 40 if tier != "thorough" else 300, seed, "C18-instr",
                       lambda m: m.get("event", {}).get("e") in ("Reenter", "ReenterEnd") or
                       m.get("after", {}).get("op") in ("CallNative", "CallFunction") or
                       (m.get("event", {}).get("d", 1) > 1 and m.get("after", {}).get("op") == "Return"))
